@@ -219,9 +219,9 @@ UNITS['c01'] = {
     'rlimit': 30,
     'mutants': [
         ('duplicate_resource_path_not_rejected', 'if r.uri.pattern() == pattern { __r4_1 = true; break; }', 'if false { __r4_1 = true; break; }', ['C02.paths.eval_program', 'C01.site.eval_program']),
-        ('duplicate_property_not_rejected', 'if text_eq(&q.name, &p.name) { __r4_1 = true; break; }', 'if false { __r4_1 = true; break; }', ['C02.object.eval_object', 'C01.site.eval_object']),
+        ('duplicate_property_not_rejected', 'if q.name == p.name { __r4_1 = true; break; }', 'if false { __r4_1 = true; break; }', ['C02.object.eval_object', 'C01.site.eval_object']),
         ('duplicate_method_not_rejected', 'if xfers.is_filled(m) {', 'if false {', ['C02.relation.eval_relation', 'C01.site.eval_relation']),
-        ('conflicting_alternative_not_rejected', 'if content_ne(prev, &c) {', 'if false {', ['C02.ranges.eval_variadic_operation', 'C01.site.eval_variadic_operation']),
+        ('conflicting_alternative_not_rejected', 'if *prev != c {', 'if false {', ['C02.ranges.eval_variadic_operation', 'C01.site.eval_variadic_operation']),
         ('duplicate_path_variable_not_rejected', 'if let Some(p) = rel.uri.duplicate_variable() {', 'if let (Some(p), false) = (rel.uri.duplicate_variable(), true) {', ['C03.path.eval_program']),
         ('headers_guard_removed', 'if !matches!(rhs.0.dereference(), Expr::Object(_)) {', 'if false {', ['C01.site.eval_content']),
         ('domain_guard_removed', 'if !value.0.is_content_like() {', 'if false {', ['C01.site.eval_transfer']),
